@@ -52,33 +52,32 @@ def sandbox(prefix: str = "vz-") -> Iterator[Path]:
 def fresh_process() -> None:
     """Emulate a process boundary between two zorg commands.
 
-    ``create_cached_engine`` is an lru_cache; a real CLI run never sees an engine
-    of a previous command.  Dispose and forget them.
+    ``create_cached_engine`` is an lru_cache; a real CLI run never sees an engine of a previous
+    command.  ZorgTemplateManager keeps a class-level TemporaryDirectory: one per real process.
     """
     from zorg.storage.sql import _engine
 
     try:
         cache = _engine.create_cached_engine
-        # dispose engines still referenced by the cache (best effort)
-        wrapped = getattr(cache, "cache_parameters", None)
-        cache.cache_clear()
+        if cache.cache_info().currsize:
+            cache.cache_clear()
+            import gc
+
+            gc.collect()
     except Exception:  # noqa: BLE001
         pass
-    # ZorgTemplateManager keeps a class-level TemporaryDirectory: one per real process
     try:
         from zorg.service import templates as _t
 
         old = _t.ZorgTemplateManager.tmp_dir
-        _t.ZorgTemplateManager.tmp_dir = tempfile.TemporaryDirectory(dir=_TMP_ROOT)
-        try:
-            old.cleanup()
-        except Exception:  # noqa: BLE001
-            pass
+        if os.listdir(old.name):
+            _t.ZorgTemplateManager.tmp_dir = tempfile.TemporaryDirectory(dir=_TMP_ROOT)
+            try:
+                old.cleanup()
+            except Exception:  # noqa: BLE001
+                pass
     except Exception:  # noqa: BLE001
         pass
-    import gc
-
-    gc.collect()
 
 
 def db_url(zdir: Path) -> str:
